@@ -203,6 +203,7 @@ def cmd_check(args):
     solver_ms = 0
     vac_expected = vac_refuted = 0
     second_opinions = []
+    unchecked = dict(external_body=set(), assume=0, admit=0, assume_specification=set(), uninterpreted_or_external_types=set())
     files = 0
     for (u, cfg, vac, path, text, log), rs in results:
         fmap = M.FileMap(text, u.props)
@@ -251,6 +252,16 @@ def cmd_check(args):
                         obligations.setdefault(key, dict(ok=True, clause=re.sub(r'\s*// @OBL.*', '', ln).strip()))
             for m in re.finditer(r'// @FN (\S+) src=(\S+)', text):
                 functions.append('%s [%s.%s]' % (m.group(1), u.name, cfg))
+            # mechanical scan of the generated text for everything that is assumed rather than proved
+            for m in re.finditer(r'#\[verifier::external_body\]\s*(?:pub\s+)?(?:open\s+|closed\s+)?(?:async\s+)?(?:proof\s+|exec\s+)?fn\s+(\w+)', text):
+                k_ = fmap.origin[text.count('\n', 0, m.start())] if text.count('\n', 0, m.start()) < len(fmap.origin) else None
+                unchecked['external_body'].add('%s::%s' % (k_, m.group(1)))
+            unchecked['assume'] += len(re.findall(r'(?<![\w.])assume\s*\(', text))
+            unchecked['admit'] += len(re.findall(r'(?<![\w.])admit\s*\(', text))
+            for m in re.finditer(r'assume_specification[^\[;]*\[\s*(.+?)\s*\]\s*\(', text):
+                unchecked['assume_specification'].add(re.sub(r'\s+', '', m.group(1)))
+            for m in re.finditer(r'(?:uninterp\s+spec\s+fn|external_type_specification\]\s*(?:#\[[^\]]*\]\s*)*pub struct)\s+(\w+)', text):
+                unchecked['uninterpreted_or_external_types'].add(m.group(1))
     # an obligation is discharged iff no failure names it (or lies in its function without tag)
     for f in violations:
         for t in f['tags'] or ['(untagged:%s)' % f['message']]:
@@ -282,7 +293,7 @@ def cmd_check(args):
         wit = None
         try:
             from . import witness
-            wit = witness.search(prop, f)
+            wit = witness.search(prop, f, WITNESS_FAMILIES.get(prop))
         except Exception as e:  # witness machinery must never turn a violation into a crash
             wit = dict(found=False, note='witness search failed: %r' % (e,))
         with open(rp, 'w') as fh:
@@ -316,7 +327,7 @@ def cmd_check(args):
                      src=None, message='verifier undecided: ' + str(u.get('message'))[:400], rendered=str(u.get('message')), genfile=u.get('file'))
             try:
                 from . import witness
-                wit = witness.search(prop, f)
+                wit = witness.search(prop, f, WITNESS_FAMILIES.get(prop))
             except Exception as e:
                 wit = dict(found=False, note='witness search failed: %r' % (e,))
             standins.append(dict(unit=u['unit'], cfg=u.get('cfg'), found=bool(wit.get('found')), bounds='families with <= 3 children (tuples <= 3), scripted child steps and driver schedules, budget %s scenarios, seed %s' % (os.environ.get('VX_WITNESS_BUDGET', '20000'), seed)))
@@ -448,6 +459,9 @@ def cmd_check(args):
             solver_time_s=round(solver_ms / 1000.0, 2),
             vacuity_twins=dict(expected_refuted=vac_expected, refuted=vac_refuted),
             proved_with_loop_isolation_off=second_opinions,
+            unchecked_scan=dict(note='mechanical scan of every generated file of this check: functions whose contract is assumed (external_body = environment / dependency / unsafe-leaf models), assume()/admit() statements, assume_specification items, uninterpreted spec functions and external types',
+                                external_body_functions=sorted(unchecked['external_body']), assume_statements=unchecked['assume'], admit_statements=unchecked['admit'],
+                                assume_specification=sorted(unchecked['assume_specification']), uninterpreted_or_external=sorted(unchecked['uninterpreted_or_external_types'])),
             rewrites=rewrites[:400],
             undecided=undecided[:50],
             failures_outside_property=[dict(unit=f['unit'], cfg=f['cfg'], fn=f['fn'], tags=f['tags'], props=f['props']) for f in other_fail][:50],
